@@ -115,6 +115,9 @@ def check_moments(leaf, offsets):
                 trans = _Trans()
                 trans.system = system
                 states = [ChainState(pos=np.array([off, off], dtype=float), mom=np.zeros(2), dir=1) for _ in range(nchain)]
+                # momenta were drawn under the old metric before adaptation (as in a sampler)
+                for c in range(nchain):
+                    states[c].mom = system.sample_momentum(states[c], np.random.default_rng(c))
                 ads = [adapter.initialize(states[c], trans) for c in range(nchain)]
                 for (c, x, y) in hist:
                     states[c - 1].pos = np.array([off + sc * x, off + sc * y], dtype=float)
@@ -299,6 +302,63 @@ def check_search(leaf):
     return viol, drift, 1
 
 
+def check_initialize_sequence(search_leaves):
+    """One adapter object initialised for several chains / stages in a row: every adapter state
+    gets the regularisation target log(10 * its own initial step size) (documented default)."""
+    import mici
+    from mici.errors import ConvergenceError
+    from mici.states import ChainState
+
+    rets = [l for l in search_leaves if l["search"]["out"] == "return"]
+    viol, runs = [], 0
+    # pairs with different returned step sizes, each order
+    pairs = []
+    for a in rets:
+        for b in rets:
+            if a["search"]["exp"] != b["search"]["exp"]:
+                pairs.append((a, b))
+    step = max(1, len(pairs) // 40)
+    for a, b in pairs[::step]:
+        adapter = mici.adapters.DualAveragingStepSizeAdapter(max_init_step_size_iters=a["cfg"]["maxprobes"])
+        runs += 1
+        for which, leaf in (("first", a), ("second", b)):
+            hist = leaf["hist"]
+            calls = {"h": 0, "step": 0}
+
+            class Sys:
+                def h(self, state, hist=hist, calls=calls):
+                    calls["h"] += 1
+                    if calls["h"] == 1:
+                        return 0.0
+                    return {"le": 0.1, "gt": 5.0, "nan": float("nan")}[hist[calls["step"] - 1]]
+
+            class Integ:
+                step_size = None
+
+                def step(self, state, hist=hist, calls=calls):
+                    k = calls["step"]
+                    calls["step"] += 1
+                    if hist[k] == "err":
+                        raise ConvergenceError("scripted")
+                    return state
+
+            trans = _Trans()
+            trans.system, trans.integrator = Sys(), Integ()
+            st = adapter.initialize(ChainState(pos=np.zeros(2), mom=np.zeros(2), dir=1), trans)
+            want = math.log(10 * 2.0 ** leaf["search"]["exp"])
+            if not math.isclose(st["log_step_size_reg_target"], want, rel_tol=1e-12, abs_tol=1e-12):
+                viol.append(("C17:dual:initialize:regularisation-target",
+                             f"one DualAveragingStepSizeAdapter initialised twice (probe classes {a['hist']} then {b['hist']}): the {which} "
+                             f"adapter state has log_step_size_reg_target {st['log_step_size_reg_target']} but log(10 * initial step size) = {want}",
+                             {"engine": "adapters-init-seq", "first": a["hist"], "second": b["hist"]}))
+                break
+            if st["iter"] != 0 or st["smoothed_log_step_size"] != 0.0 or st["adapt_stat_error"] != 0.0:
+                viol.append(("C17:dual:initialize:state-not-fresh", f"initialize returned a non-fresh adapter state {st}",
+                             {"engine": "adapters-init-seq", "first": a["hist"], "second": b["hist"]}))
+                break
+    return viol, runs
+
+
 def check_all(tier, name):
     leaves, stats, cfgs = run_spec(tier, name)
     viol, drift, runs = [], [], 0
@@ -324,5 +384,10 @@ def check_all(tier, name):
             if x[1] not in seen:
                 seen.add(x[1])
                 viol.append(x)
-    # large offsets relative to spread (numerically hard inputs) on the longest histories
+    v, r = check_initialize_sequence([l for l in leaves if l["mode"] == "search"])
+    runs += r
+    for sgn, what, rp in v:
+        if sgn not in seen:
+            seen.add(sgn)
+            viol.append(("C17", sgn, what, rp))
     return {"leaves": leaves, "stats": stats, "viol": viol, "drift": drift, "runs": runs, "cfgs": cfgs}
